@@ -92,6 +92,7 @@ def check_requirement(F, f, block, req):
        after:<callee>                site is dominated by a call to callee
        between:<A>:<B>:<C>           every path from a call to A to a call to C passes through a call to B
        infn:<function>|<requirement> the requirement holds in another function (cross-function invariants)
+       adjacent:<A>|<B>              after every call to A the next call to a method of the same type is B (nothing runs in between)
        paired:<A>|<B>|<const>        every call to A is dominated by a call to B that carries the constant <const>
                                      and acts on the same parameter as A's receiver (A must occur)"""
     from cfgq import calls_to, call_result_edges, must_pass
@@ -99,10 +100,35 @@ def check_requirement(F, f, block, req):
     kind = parts[0]
     if kind == "infn":
         fn, inner = req[len("infn:"):].split("|", 1)
-        gs = [g for g in F.find(fn) if not g.is_closure()]
+        gs = [g for g in F.find(fn) if ("{closure" in fn) == g.is_closure()]
         if len(gs) != 1:
             return False, f"anchor-missing: function `{fn}` found {len(gs)} times"
         return check_requirement(F, gs[0], None, inner)
+    if kind == "adjacent":
+        a, b_ = req[len("adjacent:"):].split("|")
+        owner = a.rsplit("::", 1)[0]          # e.g. BlockParser: only calls on the same object type count as "in between"
+        A = calls_to(f, a)
+        if not A:
+            return False, f"anchor-missing: no call to `{a}` in {f.key}"
+        for x, t in A:
+            # walk forward from the call; the first call to a method of `owner` on every path must be b_
+            seen, work = set(), [t.get("target")]
+            while work:
+                y = work.pop()
+                if y is None or y in seen:
+                    continue
+                seen.add(y)
+                ty = f.blocks[y]["term"]
+                if ty["k"] == "call":
+                    k = callee_key(ty) or callee_def(ty) or ""
+                    if _suffix(k, b_):
+                        continue
+                    if (owner + "::") in k or ("<" + owner) in k or (owner + "<") in k:
+                        return False, f"`{k.rsplit('::', 1)[-1]}` at {f.where(y)} runs between `{a}` and `{b_}`"
+                if ty["k"] in ("return", "resume", "unreachable"):
+                    continue
+                work.extend(s_ for s_ in f.succ[y] if ty["k"] != "call" or s_ == ty.get("target"))
+        return True, ""
     if kind == "paired":
         a, b_, cpath = req[len("paired:"):].split("|")
         A = calls_to(f, a)
@@ -968,7 +994,7 @@ def run(chk: harness.Check):
     sub = harness.Check("C04", chk.tier)
     c04.run(sub)
     harness.fold(chk, sub, lambda r: "C03.D5-report-offsets" if r.startswith("C04.") else r,
-                 keep=lambda r: r in ("C04.D1-provenance", "anchor-missing"))
+                 keep=lambda r: r in ("C04.D1-provenance", "C04.D1-discharge", "anchor-missing"))
     # census (not armed)
     census = Counter()
     for k, f in F.funcs.items():
